@@ -79,7 +79,7 @@ class Variation:
 
     def __init__(self, rng=None, *, st_perm=None, sess_perm=None, shift=0, evse_kinds=None, dict_shuffle=True,
                  vtypes=True, constraints="none", con_perm=False, mutate=False, twostage=False,
-                 store_hist=True, est_seed=0, verbose=False, queue_form="ctor", late_scheduler=False, np_ints=False, sub_events=False, reuse_evs=False, eps_pilots=False, peek=False,
+                 store_hist=True, est_seed=0, verbose=False, queue_form="ctor", late_scheduler=False, np_ints=False, sub_events=False, reuse_evs=False, eps_pilots=False, peek=False, legacy_unplug=False,
                  aware_start=False):
         self.rng = rng or random.Random(0)
         self.st_perm, self.sess_perm, self.shift = st_perm, sess_perm, shift
@@ -96,6 +96,9 @@ class Variation:
         # class accepts, and what is recorded and applied is the submitted value (energies are then not those of the
         # specification: only the implementation's own ledger is compared, as for two-stage batteries)
         self.eps_pilots = eps_pilots
+        # the JSON text is rewritten into the form acnportal 0.2.2 wrote (an UnplugEvent carried station_id / session_id
+        # instead of its EV) before it is loaded: the documented backward compatibility of UnplugEvent._from_dict
+        self.legacy_unplug = legacy_unplug
         self.peek = peek                  # somebody reads the scheduler's interface before / between runs (a look changes nothing)
         self.np_ints = np_ints          # arrivals / departures / event timestamps as numpy integers
         self.aware_start = aware_start  # Simulator.start carries a time zone (the clock is compared by its wall time)
@@ -934,6 +937,17 @@ class Replay:
         import os
         import tempfile
         form = self.var.rng.randrange(3)
+        if self.var.legacy_unplug and sum(1 for r in self.bhv if r["a"] == "dumpload") == 1:
+            # (only when this is the behaviour's single round trip: a simulator loaded from the old format holds
+            # partially built EVs in its Unplug events and cannot be dumped again)
+            reg = json.loads(self.sim.to_json())
+            ctx = reg["context_dict"]
+            for obj in ctx.values():
+                if obj["class"].endswith(("UnplugEvent", "SiteUnplug")) and "ev" in obj["attributes"]:
+                    ev = ctx[obj["attributes"].pop("ev")]["attributes"]
+                    obj["attributes"]["station_id"], obj["attributes"]["session_id"] = ev["_station_id"], ev["_session_id"]
+            self.legacy_loaded = True
+            return Simulator.from_json(json.dumps(reg))
         if form == 0:
             return Simulator.from_json(self.sim.to_json())
         if form == 1:
@@ -983,9 +997,13 @@ class Replay:
         for k, ev in sim.ev_history.items():
             refs.setdefault(k, []).append(("ev_history", ev))
         for ts, e in sim.event_queue.queue:
+            if e.event_type == "Unplug" and getattr(self, "legacy_loaded", False):
+                continue        # loaded from the 0.2.2 format: a stand-in EV that carries the two ids only (documented)
             if e.event_type in ("Plugin", "Unplug"):
                 refs.setdefault(e.ev.session_id, []).append(("pending " + e.event_type, e.ev))
         for e in sim.event_history:
+            if e.event_type == "Unplug" and getattr(self, "legacy_loaded", False) and not hasattr(e.ev, "_battery"):
+                continue
             if e.event_type in ("Plugin", "Unplug"):
                 refs.setdefault(e.ev.session_id, []).append(("event_history", e.ev))
         for k, lst in refs.items():
